@@ -157,6 +157,7 @@ func init() {
 		c20BoundedWalk(c)
 		c20Overlay(c)
 		c20MergeOrder(c)
+		c20SnapshotAndPrecedence(c)
 		c.usubRule("arith", func(fn *ssa.Function) bool {
 			return pkgRelOf(fn) == "sync/preconfirmed" && strings.HasSuffix(p.File(fnPos(fn)), "/chain_storage.go")
 		}, map[string]string{
@@ -502,5 +503,77 @@ func c20MergeOrder(c *Ctx) {
 		}
 	} else {
 		c.und("merge-order", "core.StateDiff.Merge", "", "anchor not found")
+	}
+}
+
+// c20SnapshotAndPrecedence: (snapshot-contains) SnapshotForBlock hands out a non-empty view only for a block number inside
+// the stored chain (oldest ≤ n ≤ tip): after a head revert a number below the chain must yield the empty view, not a view
+// whose first block is above the requested one; (overlay-precedence) where two sections of the merged diff can both
+// describe an address (deployed, later replaced), the later-effect section is consulted first — lookup order is the only
+// place the merged diff encodes order.
+func c20SnapshotAndPrecedence(c *Ctx) {
+	p := c.P
+	if f := p.Func("sync/preconfirmed", "ChainStorage", "SnapshotForBlock"); f != nil {
+		n := 0
+		for _, ret := range returnsOf(f) {
+			al, isAl := ret.Results[0].(*ssa.UnOp)
+			_ = al
+			_ = isAl
+			// non-empty view: some field store into the returned literal
+			nonEmpty := false
+			if ld, ok := ret.Results[0].(*ssa.UnOp); ok {
+				if a, ok := ld.X.(*ssa.Alloc); ok {
+					for _, r := range *a.Referrers() {
+						if fa, ok := r.(*ssa.FieldAddr); ok {
+							for _, r2 := range *fa.Referrers() {
+								if st, ok := r2.(*ssa.Store); ok && dominatesInstr(st, ret.Ret) {
+									nonEmpty = true
+								}
+							}
+						}
+					}
+				}
+			}
+			if !nonEmpty {
+				continue
+			}
+			n++
+			d := p.mustHoldAt(ret.Ret)
+			ok1, m1 := everyDisjunctHas(d, []string{"(blockNumber >= ", "oldestPreConf())"}, []string{"^!", "(blockNumber < ", "oldestPreConf())"}, []string{"oldestPreConf() <= blockNumber)"})
+			ok2, m2 := everyDisjunctHas(d, []string{"(blockNumber <= ", "tip())"}, []string{"^!", "(blockNumber > ", "tip())"}, []string{"tip() >= blockNumber)"})
+			c.check(ok1 && ok2, "snapshot-contains", "SnapshotForBlock: non-empty view", p.Pos(posOf(ret.Ret, f)), "only for oldest ≤ blockNumber ≤ tip of the stored chain", "a non-empty view is returned for a block number outside the stored chain (lower bound: "+fmt.Sprint(ok1)+" "+m1+"; upper bound: "+fmt.Sprint(ok2)+" "+m2+"): after a head revert the view starts above the requested block and is no longer contiguous with the head it was asked for")
+		}
+		if n == 0 {
+			c.und("snapshot-contains", "SnapshotForBlock", p.Pos(fnPos(f)), "no non-empty return found")
+		}
+	} else {
+		c.und("snapshot-contains", "ChainStorage.SnapshotForBlock", "", "anchor not found")
+	}
+	for _, row := range []struct{ m, first, second string }{
+		{"ContractClassHash", "ReplacedClasses", "DeployedContracts"},
+		{"ContractNonce", "Nonces", "DeployedContracts"},
+		{"ContractStorage", "StorageDiffs", "DeployedContracts"},
+	} {
+		f := p.Func("core/pending", "State", row.m)
+		if f == nil {
+			c.und("overlay-precedence", "pending.State."+row.m, "", "anchor not found")
+			continue
+		}
+		var first, second ssa.Instruction
+		allInstrs(f, func(in ssa.Instruction) {
+			lk, ok := in.(*ssa.Lookup)
+			if !ok {
+				return
+			}
+			t := term(lk.X)
+			if strings.HasSuffix(t, "."+row.first) && first == nil {
+				first = in
+			}
+			if strings.HasSuffix(t, "."+row.second) && second == nil {
+				second = in
+			}
+		})
+		ok := first != nil && second != nil && dominatesInstr(first, second)
+		c.check(ok, "overlay-precedence", "pending.State."+row.m+": "+row.first+" before "+row.second, p.Pos(fnPos(f)), "the section holding the later effect is consulted first", "the overlay consults "+row.second+" before "+row.first+": for an address that was deployed and later changed within the pre-confirmed window the earlier value wins and the view no longer equals the base overlaid with the diffs in order")
 	}
 }
